@@ -73,6 +73,7 @@ def run_lp(spec, opts, workdir, rng, inject=True, noise=True, second_side=None,
     if clock is not None:
         TAP.clock = clock
         solver_mod.datetime = clock
+        ex['_t0'] = clock.t
     try:
         try:
             s = Solver(list(argv))
@@ -107,6 +108,9 @@ def run_lp(spec, opts, workdir, rng, inject=True, noise=True, second_side=None,
             except BaseException:
                 pass
         ex['events'] = list(TAP.events)
+        if clock is not None:
+            # elapsed time of construction + solve by the harness's own clock (not the repository's bookkeeping)
+            ex['virtual_total_s'] = clock.t - ex['_t0']
         ex['inj'] = dict(TAP.inj)
         ex['prob'] = TAP.probs[-1] if TAP.probs else None
         TAP.enabled = False
